@@ -36,11 +36,28 @@ pub fn c01(tier: &str, seed: u64) {
     let rnd_o = if injected {
       let mut r = [0u8; 32];
       r.copy_from_slice(&g.bytes(32));
+      // distinguished values a randomness server may as well return: all zero, all ones, 0..01
+      match case_i % 16 {
+        1 => r = [0u8; 32],
+        5 => r = [0xff; 32],
+        9 => { r = [0u8; 32]; r[31] = 1; }
+        13 => { r = [0u8; 32]; r[0] = 1; }
+        _ => {}
+      }
       Some(r)
     } else {
       None
     };
     let nrep = t as usize + g.below(4) as usize;
+    // every 32-byte value is a legitimate shared randomness: a client must be able to report
+    if let Some(r) = rnd_o {
+      let mg = MessageGenerator::new(SingleMeasurement::new(&m), t, &e);
+      if let Err(err) = Message::generate(&mg, &r, None) {
+        fail("generate_refused", &[("measurement", hex(&m)), ("epoch", hex(&e)), ("threshold", t.to_string()), ("randomness", hex(&r)), ("error", err.to_string())]);
+        case(true);
+        continue;
+      }
+    }
     let mut clients: Vec<Client> = (0..nrep).map(|_| make_client(&m, &e, t, gen_aux(&mut g), rnd_o)).collect();
     // client 0 reuses ONE generator object: it first produced a report under other randomness
     // (and the WASM material), then the report it actually sends
@@ -223,6 +240,28 @@ pub fn c16(tier: &str, seed: u64) {
       }
       if t >= 2 && recover(&sel[..t as usize - 1]).is_ok() {
         fail("recovered_below_threshold", &desc);
+      }
+      // `recover` takes any IntoIterator of share references: lazily filtered, flattened and chained
+      // iterators (whose size_hint says little) must give what the slice gives
+      if case_i % 4 == 0 {
+        let want = recover(&sel).map(|c| c.get_message()).ok();
+        let halves: Vec<&[AShare]> = vec![&sel[..sel.len() / 2], &sel[sel.len() / 2..]];
+        let shapes: Vec<(&str, Option<Vec<u8>>)> = vec![
+          ("iter().filter(..)", recover(sel.iter().filter(|s| s.to_bytes().len() > 0)).map(|c| c.get_message()).ok()),
+          ("chunks flattened", recover(halves.iter().flat_map(|h| h.iter())).map(|c| c.get_message()).ok()),
+          ("skip_while(..)", recover(sel.iter().skip_while(|_| false)).map(|c| c.get_message()).ok()),
+          ("chain", recover(sel[..1].iter().chain(sel[1..].iter())).map(|c| c.get_message()).ok()),
+        ];
+        for (shape, got) in shapes {
+          if got != want {
+            let mut d = desc.clone();
+            d.push(("iterator_shape", shape.to_string()));
+            d.push(("slice_result", format!("{:?}", want.as_ref().map(|v| v.len()))));
+            d.push(("iterator_result", format!("{:?}", got.as_ref().map(|v| v.len()))));
+            fail("recover_depends_on_iterator_shape", &d);
+          }
+        }
+        stat("oracle.C16.lazy_iterators");
       }
     }
     // custom transcript: rejected by recover (which verifies under the default transcript)
